@@ -1,5 +1,5 @@
 """C11 — one total order governs comparison, sorting, grouping and key order (docs/C11.md)."""
-import json, os, re, sys
+import json, os, re, sys, time
 import verif as V
 
 PROP = "C11"
@@ -25,17 +25,36 @@ def correspond(c, exe_m, stream, seed, n, tier):
     for v in (st.get("impl_violations") or []):
         c.failing_input("order law violated by gojq.Compare / operators", v, v)
     # impl != spec on the property's domain: a concrete failing input
-    for line, verdict in smism[:10]:
+    for line, verdict in sorted(smism, key=lambda lv: len(lv[0]))[:10]:     # shortest failing inputs first
         c.failing_input("result differs from the specification order (exact rationals)", line, "expected: " + verdict)
     sbad = set(l for l, _ in smism)
-    for line, verdict in mism[:10]:
+    for line, verdict in sorted(mism, key=lambda lv: len(lv[0]))[:10]:
         if line not in sbad:
             c.broken_correspondence(stream, line, "model verdict: " + verdict)
     return st
 
 
+def model_exe():
+    """the extracted model depends on Coq sources only (not on /repo): rebuild it when one of them is newer"""
+    exe = os.path.join(V.BUILD, "extract", "c11", "c11model")
+    srcs = [os.path.join(V.ROOT, "ml", "driver.ml"), os.path.join(V.COQ, "extract", "ExtractC11.v")]
+    for d in ("c11", "common"):
+        dd = os.path.join(V.COQ, d)
+        srcs += [os.path.join(dd, f) for f in os.listdir(dd) if f.endswith(".v")]
+    if os.path.exists(exe) and all(os.path.getmtime(f) < os.path.getmtime(exe) for f in srcs):
+        return exe, "up to date"
+    return V.build_model("c11", "extract/ExtractC11.v", "c11model", deps=["c11/Run.v"])
+
+
 def run(tier, seed):
     c = V.Check(PROP, tier, seed)
+    times = {}
+
+    def timed(label, f):
+        t = time.time()
+        r = f()
+        times[label] = round(time.time() - t, 1)
+        return r
     c.assumptions += [
         "float64(int) and bigToFloat round to nearest-even (Flocq binary_normalize mode_NE); strconv.ParseFloat is "
         "correctly rounded (json.Number literals are decoded by the model's parse_number); math/big Cmp is exact",
@@ -46,18 +65,18 @@ def run(tier, seed):
         "values outside the domain (NaN, |float| >= 2^53, infinities) are compared model-vs-implementation only; "
         "the sort-based builtins are exercised on in-domain arrays only",
     ]
-    proved = c.prove(PROPS)
-    exe_h, hlog = V.build_harness("c11")
+    proved = timed("prove", lambda: c.prove(PROPS))
+    exe_h, hlog = timed("build_harness", lambda: V.build_harness("c11"))
     stats = {}
     if exe_h is None:
         c.broken_correspondence("harness-build", None, V.tail(hlog, 40))
     else:
-        exe_m, mlog = V.build_model("c11", "extract/ExtractC11.v", "c11model", deps=["c11/Run.v"])
+        exe_m, mlog = timed("build_model", model_exe)
         if exe_m is None:
             c.broken_correspondence("model-extraction", None, V.tail(mlog, 40))
         else:
-            stats["c11pairs"] = correspond(c, exe_m, "c11pairs", seed, 0, tier)
-            stats["c11nat"] = correspond(c, exe_m, "c11nat", seed, 150 if tier == "quick" else 6000, tier)
+            stats["c11pairs"] = timed("c11pairs", lambda: correspond(c, exe_m, "c11pairs", seed, 0, tier))
+            stats["c11nat"] = timed("c11nat", lambda: correspond(c, exe_m, "c11nat", seed, 150 if tier == "quick" else 6000, tier))
     rule = ("c11pairs: gojq.Compare and the six comparison operators on ALL ordered pairs of a ~200-value universe (every type, "
             "nesting shapes, int/*big.Int/float64/json.Number, +-2^53+-1, int64 limits, huge bigs, -0.0, subnormals, NaN, +-Inf) "
             "judged by the extracted model and, on the domain, by the exact-rational specification order; reflexivity, antisymmetry "
@@ -65,7 +84,7 @@ def run(tier, seed):
             "c11nat: sort, sort_by, group_by, unique, unique_by, min, max, min_by, max_by, bsearch, array -, indices/index/rindex, "
             "keys, [.[]], tojson/Marshal key order on random arrays (length 0..64, frequent ties between distinguishable equal "
             "values) of universe values; distinct = distinct case lines")
-    return c.finish(rule, extra_cov=dict(harness_stats=stats))
+    return c.finish(rule, extra_cov=dict(harness_stats=stats, phase_seconds=times))
 
 
 def replay(path):
@@ -74,7 +93,7 @@ def replay(path):
     case = d.get("case")
     if not case:
         return 1
-    exe_m, mlog = V.build_model("c11", "extract/ExtractC11.v", "c11model", deps=["c11/Run.v"])
+    exe_m, mlog = model_exe()
     if exe_m and case.startswith("("):
         for wrap in (case, "(spec " + case + ")"):
             rc, out = V.sh([exe_m], stdin=(wrap + "\n").encode())
